@@ -234,6 +234,17 @@ fn scalar_paths<G: CurveGroup + ScalarMul>(t: &mut Tally, name: &str, pts: &[G],
                     t.check(ctx.mul(*p, &s) == e, || format!("{name}: wnaf window {w} k={k}"));
                     let table = ctx.table(*p);
                     t.check(ctx.mul_with_table(&table, &s) == Some(e), || format!("{name}: wnaf table window {w} k={k}"));
+                    t.check(table.len() == 1 << (w - 1), || format!("{name}: wnaf table window {w} has {} entries", table.len()));
+                    // every too-short prefix of the table is refused (None), without panic; a longer table is accepted
+                    if k < 40 {
+                        for cut in 0..table.len() {
+                            let (tb, sc) = (table[..cut].to_vec(), s);
+                            let out = t.no_panic(std::panic::AssertUnwindSafe(move || WnafContext::new(w).mul_with_table(&tb, &sc).is_none()), || format!("{name}: wnaf window {w} with a table of {cut} entries, k={k}"));
+                            if let Some(is_none) = out { t.check(is_none, || format!("{name}: wnaf window {w} accepts a table of {cut} < 2^(w-1) entries (k={k})")); }
+                        }
+                        let mut longer = table.clone(); longer.push(*p);
+                        t.check(ctx.mul_with_table(&longer, &s) == Some(e), || format!("{name}: wnaf window {w} with an over-long table k={k}"));
+                    }
                 }
             }
         }
